@@ -3,7 +3,7 @@
 import json, glob, os, re
 ROOT = os.path.dirname(os.path.dirname(os.path.abspath(__file__)))
 rows = []
-for d in sorted(glob.glob(os.path.join(ROOT, 'seeded', 'C*-m*'))):
+for d in sorted(glob.glob(os.path.join(ROOT, 'seeded', 'C*-*m*'))):
     try:
         m = json.load(open(os.path.join(d, 'meta.json')))
     except Exception:
